@@ -234,8 +234,15 @@ func runC05(c *Ctx) {
 			seen[pr{ua, port}] = true
 		}
 		tgt := func(i ssa.Instruction) bool { return i == ssa.Instruction(st) }
-		c.mustPassPred(p, fn, "C05.port.scheme", key+" only for scheme "+scheme, tgt, litAny(T("("+u+`.Scheme == "`+scheme+`")`)))
-		c.mustPassPred(p, fn, "C05.port.scheme", key+" only when no port is given", tgt, litAny(T("((*net/url.URL).Port("+u+`) == "")`)))
+		// inside a new helper applied to several URLs the walk describes the URL for the call
+		// site it came through: any of the merged alternatives (and the merge itself) may appear
+		var schemeLits, portLits []LitPat
+		for _, ua := range append(phiAlts(u), u) {
+			schemeLits = append(schemeLits, T("("+ua+`.Scheme == "`+scheme+`")`))
+			portLits = append(portLits, T("((*net/url.URL).Port("+ua+`) == "")`))
+		}
+		c.mustPassPred(p, fn, "C05.port.scheme", key+" only for scheme "+scheme, tgt, litAny(schemeLits...))
+		c.mustPassPred(p, fn, "C05.port.scheme", key+" only when no port is given", tgt, litAny(portLits...))
 	}
 	for _, u := range []string{oU, aU} {
 		for _, port := range []string{"80", "443"} {
